@@ -34,7 +34,7 @@ marker. Prefer changes that need something SPECIFIC to manifest: an unusual but 
 configuration/profile, a multi-step sequence of calls on the same objects, a particular calendar situation (DST day,
 leap day, month edge, timezone), or two cooperating sites that each look fine alone. Do NOT write a change that
 ordinary use would expose at once (e.g. every prediction wrong), and do not break unrelated behaviour.
-{avoid}
+{avoid}{extra}
 For EACH change k = 1..{n} produce, in {out}/change<k>/ :
   - patch.diff   : `git diff` of the change against the worktree HEAD (must apply with `git apply` to a clean checkout;
                    only files under opendsm/; restore the worktree with `git checkout -- .` before starting the next change)
@@ -106,7 +106,10 @@ def main(argv):
         a = p.get("anchors", {})
         anchors = "files: " + ", ".join(a.get("files", [])) + "; mechanisms: " + "; ".join(
             "%s (%s)" % (m.get("name"), m.get("where")) for m in a.get("mechanism", []))
-        txt = TEMPLATE.format(wt=wt, out=out, id=pid, title=p["title"], statement=p["statement"],
+        extra = os.environ.get("SEED_EXTRA", "")
+        if extra:
+            extra = "\n" + extra + "\n"
+        txt = TEMPLATE.format(extra=extra, wt=wt, out=out, id=pid, title=p["title"], statement=p["statement"],
                               quant=p["quantifier"]["text"], why=p["why_tests_cant"], anchors=anchors, n=n, avoid=avoid)
         open(os.path.join(base, "prompts", pid + ".md"), "w").write(txt)
         print(pid, wt, len(txt))
